@@ -195,6 +195,9 @@ func scenarios(prop, tier string) []runner.Sc {
 	mk("root-ctx-while-relist-blocks", ctl.Cfg{Tree: t, ListFaults: map[int]fakeapi.ListFault{2: {Kind: "block"}}, Close: ctl.CloseSpec{Kind: "ctx", AfterMut: -1, At: 4 * time.Second}, ReadAt: 6 * time.Second, APICalls: prop == "C12"}, expect{closed: "*", rootDown: true})
 	mk("root-list-canceled-error/list2", ctl.Cfg{Tree: t, ListFaults: map[int]fakeapi.ListFault{2: {Kind: "canceled"}}, ReadAt: 5 * time.Second, APICalls: prop == "C12"}, expect{closed: "*", rootDown: true})
 	mk("root-list-error/list2", ctl.Cfg{Tree: t, ListFaults: map[int]fakeapi.ListFault{2: {Kind: "error"}}, ReadAt: 5 * time.Second, APICalls: prop == "C12"}, expect{closed: "*", rootDown: true})
+	// the root is closed (or its relist fails) after the watch has reconnected once
+	mk("root-close-after-a-watch-reconnect", ctl.Cfg{Tree: t, WatchFaults: map[int]fakeapi.WatchFault{1: {Kind: "close", After: 0}}, Close: ctl.CloseSpec{Kind: "close", AfterMut: -1, At: 2500 * time.Millisecond}, ReadAt: 2800 * time.Millisecond, APICalls: prop == "C12"}, expect{closed: "*", rootDown: true})
+	mk("root-list-error-after-a-watch-reconnect/list2", ctl.Cfg{Tree: t, WatchFaults: map[int]fakeapi.WatchFault{1: {Kind: "close", After: 0}}, ListFaults: map[int]fakeapi.ListFault{2: {Kind: "error"}}, ReadAt: 5 * time.Second, APICalls: prop == "C12"}, expect{closed: "*", rootDown: true})
 	if prop == "C12" {
 		W := func(kind string, after int) fakeapi.WatchFault { return fakeapi.WatchFault{Kind: kind, After: after} }
 		sm := small()
